@@ -7,7 +7,8 @@ REC = [("asm_assemble_str", "rec_assemble_str"), ("asm_assemble_string_counting_
 COMMON = ("vf_os.c", "glue.c", "vf_main.c", "libc_models.c")
 UW = {"assemble_all.0": 4, "vf_mmap.0": 300, "vf_mmap.1": 300, "vf_mmap.2": 300, "vf_mremap.0": 300, "vf_fwrite.0": 70,
       "__CPROVER_file_local_parser_c_assemble_with_chunk_fitting.0": 4, "nop_padding.1": 3,
-      "__CPROVER_file_local_glue_c19_c_rec_check.0": 120, "__CPROVER_file_local_glue_c19_c_rec_check.1": 120}
+      "__CPROVER_file_local_glue_c19_c_rec_check.0": 120, "__CPROVER_file_local_glue_c19_c_rec_check.1": 120,
+      "rec_check.0": 120, "rec_check.1": 120}
 
 OS_ASSUMPTIONS = [
     "OS model /verif/c/vf_os.c: the library's calls to malloc/free/mmap/mremap/munmap/open/fstat/close/fopen/fwrite/fclose are redirected to it by a wrapper translation unit (no change to /repo)",
